@@ -19,7 +19,7 @@ META = {
                   "oracle, scope chain, name list and event sequence; which branch applies to the current source is "
                   "regenerated (outervar_nonlocal_order); C13_outervar_list_refuted is the order dependence of the "
                   "list(<set>) shape (the source before cab9d54). The oracle "
-                  "compiles each program under 8 (quick) / 16 (thorough) hash seeds and compares ast.dump and marshal.dumps.",
+                  "compiles each program under 6 (quick) / 16 (thorough) hash seeds and compares ast.dump and marshal.dumps.",
     "level_note": "Proof covers the set-iteration mechanism only (the one process-dependent input the anchors name); other "
                   "sources of nondeterminism (time, ids, filesystem order) are covered by the differential oracle alone. "
                   "Bytecode differences CPython itself shows for the unparsed Python source under the same seeds are subtracted.",
@@ -51,7 +51,7 @@ def matcher(rec, params):
 
 
 def seeds_for(chk):
-    n_rand = 4 if chk.tier == "quick" else 12
+    n_rand = 2 if chk.tier == "quick" else 12
     return ["0", "1", "2", "3"] + [str(chk.rng.randrange(4, 2 ** 32 - 1)) for _ in range(n_rand)]
 
 
